@@ -23,6 +23,8 @@ type ExSpec struct {
 	// variants bookkeeping (model side); empty for plain exchanges
 	Group int        `json:"group,omitempty"` // 1-based variant group id, 0 = none
 	Keys  [][]string `json:"keys,omitempty"`  // the Variant-Key list of this representation
+	// SplitKeys: the Variant-Key header is supplied as one field value per key (repeated header)
+	SplitKeys bool `json:"split_keys,omitempty"`
 }
 
 func (e *ExSpec) Body() []byte { return gen.Filler(e.BodyLen, e.BodyTag) }
@@ -50,6 +52,8 @@ type VariantGroup struct {
 	Axes [][]string `json:"axes"` // each: header-name, value1, value2, ...
 	// Defect: "", "incomplete", "overlap" (model: writer must refuse)
 	Defect string `json:"defect,omitempty"`
+	// SplitAxes: the Variants header is supplied as one field value per axis (repeated header)
+	SplitAxes bool `json:"split_axes,omitempty"`
 }
 
 type Spec struct {
@@ -69,20 +73,30 @@ func mustURL(s string) *url.URL {
 	return u
 }
 
-func (g *VariantGroup) VariantsHeader() string {
+// VariantsValues returns the field values of the Variants header as the caller adds them.
+func (g *VariantGroup) VariantsValues() []string {
 	var parts []string
 	for _, ax := range g.Axes {
 		parts = append(parts, strings.Join(ax, ";"))
 	}
-	return strings.Join(parts, ", ")
+	if g.SplitAxes {
+		return parts
+	}
+	return []string{strings.Join(parts, ", ")}
 }
 
-func variantKeyHeader(keys [][]string) string {
+// VariantsHeader is the combined (comma-joined) value.
+func (g *VariantGroup) VariantsHeader() string { return strings.Join(g.VariantsValues(), ",") }
+
+func variantKeyValues(keys [][]string, split bool) []string {
 	var parts []string
 	for _, k := range keys {
 		parts = append(parts, strings.Join(k, ";"))
 	}
-	return strings.Join(parts, ", ")
+	if split {
+		return parts
+	}
+	return []string{strings.Join(parts, ", ")}
 }
 
 // Build creates the repository's Bundle value (fresh objects on every call).
@@ -103,8 +117,12 @@ func Build(s *Spec) *bundle.Bundle {
 		h := gen.BuildHeader(e.Headers)
 		if e.Group > 0 {
 			g := s.Groups[e.Group-1]
-			h.Add("Variants", g.VariantsHeader())
-			h.Add("Variant-Key", variantKeyHeader(e.Keys))
+			for _, v := range g.VariantsValues() {
+				h.Add("Variants", v)
+			}
+			for _, v := range variantKeyValues(e.Keys, e.SplitKeys) {
+				h.Add("Variant-Key", v)
+			}
 		}
 		b.Exchanges = append(b.Exchanges, &bundle.Exchange{
 			Request:  bundle.Request{URL: mustURL(e.URL)},
@@ -194,7 +212,7 @@ func (s *Spec) Model() map[string][]ModelResp {
 		kvs := append([]gen.HeaderKV{}, e.Headers...)
 		if e.Group > 0 {
 			g := s.Groups[e.Group-1]
-			kvs = append(kvs, gen.HeaderKV{Name: "variants", Values: []string{g.VariantsHeader()}}, gen.HeaderKV{Name: "variant-key", Values: []string{variantKeyHeader(e.Keys)}})
+			kvs = append(kvs, gen.HeaderKV{Name: "variants", Values: g.VariantsValues()}, gen.HeaderKV{Name: "variant-key", Values: variantKeyValues(e.Keys, e.SplitKeys)})
 		}
 		return ModelResp{Status: e.Status, Headers: gen.NormalizeKVs(kvs), Body: e.Body()}
 	}
@@ -442,11 +460,13 @@ func addVariantGroup(t *rapid.T, s *Spec, id int, seen map[string]bool) {
 			g.Defect = "overlap"
 		}
 	}
+	g.SplitAxes = len(g.Axes) > 1 && rapid.IntRange(0, 2).Draw(t, "splitaxes") == 0
 	s.Groups = append(s.Groups, g)
 	for _, rp := range reps {
 		e := exchange(t, u)
 		e.Group = id
 		e.Keys = rp.keys
+		e.SplitKeys = len(rp.keys) > 1 && rapid.Bool().Draw(t, "splitkeys")
 		s.Exchanges = append(s.Exchanges, e)
 	}
 }
